@@ -121,6 +121,11 @@ type c16Srv struct {
 	m     *roaManager
 	trace []string
 	seen  map[*time.Timer]int // every lifetime timer the code has armed -> its ordinal
+	// reserved: fill the reserved / must-be-ignored fields of the PDUs with non-zero values
+	// (Flags bits 1-7 and the zero octets of Prefix PDUs, the zero field of Cache Reset, the
+	// protocol version of every PDU); the meaning of a PDU is what its DEFINED bits say
+	reserved bool
+	dressed  bool // the PDU just sent was dressed
 }
 
 func c16NewHosts(t *testing.T, n int) []*c16Host {
@@ -710,8 +715,38 @@ func (s *c16Srv) enable(h *c16Host) {
 }
 
 // pdu writes one PDU to the connection and handles the roaRTR event it becomes
+func (s *c16Srv) dress(raw []byte) []byte {
+	s.dressed = false
+	if !s.reserved || !s.r.chance(40) || len(raw) < 8 {
+		return raw
+	}
+	b := append([]byte{}, raw...)
+	switch b[1] {
+	case rtr.RTR_IPV4_PREFIX, rtr.RTR_IPV6_PREFIX:
+		b[8] |= byte(s.r.pick(0x80, 0x02, 0x7e, 0xfe, 0x40)) // bit 0 alone says announce / withdraw
+		if s.r.chance(50) {
+			b[2], b[3], b[11] = 0xde, 0xad, 0xff // "zero" octets
+		}
+		s.o.stat("reserved_prefix_flags_and_zero_octets", 1)
+	case rtr.RTR_CACHE_RESET:
+		b[2], b[3] = 0xff, 0xff
+		s.o.stat("reserved_cache_reset_zero_field", 1)
+	default:
+		if !s.r.chance(50) {
+			return raw
+		}
+	}
+	if s.r.chance(60) {
+		b[0] = byte(s.r.pick(1, 2, 255)) // protocol version: not looked at by this client
+		s.o.stat("reserved_protocol_version", 1)
+	}
+	s.dressed = true
+	return b
+}
+
 func (s *c16Srv) pdu(h *c16Host, raw []byte, desc string) {
 	sq0, rq0 := s.counters(h)
+	raw = s.dress(raw)
 	if _, err := h.srv.Write(raw); err != nil {
 		s.t.Fatalf("write to %s: %v", h.host, err)
 	}
@@ -745,6 +780,25 @@ func (s *c16Srv) pduPrefix(h *c16Host, ann bool, r c16Rec) {
 	ones := r.p.Bits()
 	s.pdu(h, c16Ser(rtr.NewRTRIPPrefix(r.p.Addr(), uint8(ones), r.maxLen, r.as, flags)),
 		fmt.Sprintf("pfx %d %d %d %s %d %d", c16B(ann), r.fam(), ones, c16Bits(r.p.Addr().AsSlice(), ones), r.maxLen, r.as))
+	// oracle: right after the PDU the record is buffered or installed iff bit 0 of Flags said "announce"
+	c := s.client(h)
+	if c == nil {
+		return
+	}
+	_, present := s.view(h)[r.key()]
+	for _, p := range c.pendingROAs {
+		po, _ := p.Network.Mask.Size()
+		pa, _ := netip.AddrFromSlice(p.Network.IP)
+		present = present || (netip.PrefixFrom(pa, po) == r.p && p.MaxLen == r.maxLen && p.AS == r.as)
+	}
+	if present != ann {
+		class := "prefix-pdu-not-applied"
+		if s.dressed {
+			class = "reserved-flags-change-meaning"
+		}
+		s.o.fail(class, map[string]any{"trace": append([]string{}, s.trace...), "cache": h.idx, "record": r.key(),
+			"flags_bit0_announce": ann, "record_buffered_or_installed": present})
+	}
 }
 func (s *c16Srv) pduEndOfData(h *c16Host, sid uint16, sn uint32, expect map[string]c16Rec, why string) {
 	h.syncs++
@@ -1041,6 +1095,32 @@ func (s *c16Srv) answer(h *c16Host, concat bool, sloppy bool, cut int) {
 			}
 		}
 	}
+	if !servable && uint16(sid) != h.session && s.r.chance(45) {
+		// a restarted cache that answers the Serial Query of the old session with its data under the
+		// NEW session id (no Cache Reset): End of Data with another session id drops the old records —
+		// also when the old session id was 0, which is a session id like any other
+		s.o.stat("response_new_session_without_reset", 1)
+		if sid == 0 || h.session == 0 {
+			s.o.stat("response_new_session_from_or_to_session_0", 1)
+		}
+		s.pduCacheResponse(h, h.session)
+		var seq []c16Delta
+		for _, k := range c16Keys(h.db) {
+			seq = append(seq, c16Delta{true, h.db[k]})
+		}
+		for _, d := range seq {
+			s.pduPrefix(h, true, d.rec)
+		}
+		// (an earlier answer may already have moved the client to the new session: then this one is merged)
+		var want map[string]c16Rec
+		if c := s.client(h); c != nil && c.sessionID != h.session {
+			want = c16ApplySet(nil, seq)
+		} else if before != nil {
+			want = c16ApplySet(before, seq)
+		}
+		s.pduEndOfData(h, h.session, h.serial, want, "new-session-id-does-not-purge")
+		return
+	}
 	if !servable {
 		s.o.stat("response_cache_reset", 1)
 		s.pduCacheReset(h)
@@ -1271,6 +1351,7 @@ func (s *c16Srv) verdicts(n int) {
 // ---- corpus: the candidate defects, replayed deterministically --------------------------------
 
 func (s *c16Srv) corpus() {
+	s.reserved = false
 	a, b := s.hosts[0], s.hosts[1]
 	recA := c16Rec{netip.MustParsePrefix("10.0.0.0/8"), 24, 100}
 	recB := c16Rec{netip.MustParsePrefix("10.1.0.0/16"), 16, 200}
@@ -1460,6 +1541,27 @@ func (s *c16Srv) corpus() {
 		s.endCase()
 	}
 
+	// 3g. reserved bits: an announcement whose Flags carry reserved bits is an announcement, also for a
+	// record already installed; session id 0 is a session id: End of Data with another one purges
+	s.newManager()
+	s.addServer(a)
+	s.connected(a)
+	a.queries = nil
+	for _, fl := range []byte{0x81, 0x03, 0xff} {
+		raw := c16Ser(rtr.NewRTRIPPrefix(recA.p.Addr(), uint8(recA.p.Bits()), recA.maxLen, recA.as, rtr.ANNOUNCEMENT))
+		s.pduCacheResponse(a, 0)
+		raw[8] = fl
+		s.pdu(a, raw, "pfx 1 4 8 10 24 100")
+		raw2 := c16Ser(rtr.NewRTRIPPrefix(recB.p.Addr(), uint8(recB.p.Bits()), recB.maxLen, recB.as, rtr.WITHDRAWAL))
+		raw2[8] = fl &^ 1
+		s.pdu(a, raw2, "pfx 0 4 16 2561 16 200")
+		s.pduEndOfData(a, 0, 7, map[string]c16Rec{recA.key(): recA}, "reserved-flags-change-meaning")
+	}
+	s.pduCacheResponse(a, 5) // no query outstanding: only the new session id says "replace"
+	s.pduPrefix(a, true, recB)
+	s.pduEndOfData(a, 5, 1, map[string]c16Rec{recB.key(): recB}, "new-session-id-does-not-purge")
+	s.endCase()
+
 	// 4. announce-then-withdraw inside one response
 	s.newManager()
 	a.db[recA.key()] = recA
@@ -1538,6 +1640,7 @@ func TestVerifC16Server(t *testing.T) {
 		chaos := c%4 == 3   // arbitrary PDU order, no conformance
 		concat := c%4 == 1  // the cache concatenates per-serial deltas instead of netting them
 		sloppy := c%3 == 0  // duplicate announcements, withdrawals of unknown records
+		s.reserved = c%2 == 0
 		nh := 1 + r.intn(3) // configured caches
 		for i := 0; i < nh; i++ {
 			s.populate(s.hosts[i], r.intn(6))
